@@ -32,6 +32,8 @@ def run_C05(ctx):
     consts = session_consts(OpSet='{"num","flatten","localindex"}', LeafSet=leafset(2), Classes='{"ListOffset","List","Regular","IndexedOption","ByteMasked"}')
     ctx.l2_phase("structure-python-layer", "Session", consts, ("l2replay", "h_generic"), invariants=["Closed"],
                  require_actions=["NumOp", "FlattenOp", "LocalIndexOp"], sample_cases=(12000 if ctx.quick() else 200000), timeout=900)
+    ctx.chain_phase("chains-code-to-spec", (4000 if ctx.quick() else 60000), 5, ops={"num", "localindex", "flatten"})
+    ctx.pychain_phase("python-chains-code-to-spec", (4000 if ctx.quick() else 60000), 5, ops={"num", "localindex", "flatten", "unflatten"})
     return ctx.finish(assumptions=["leaf values are the positions 1..n (distinct), so any misplaced element is visible"])
 
 
@@ -95,6 +97,8 @@ def run_C01(ctx):
     consts = session_consts(OpSet='{"slice"}', LeafSet=leafset(2), SliceTuples="RandomSubset(12, %s)" % slice_tuples(0))
     ctx.l2_phase("slice-python-layer", "Session", consts, ("l2replay", "h_generic"), invariants=["Closed"], seed_tlc=True,
                  require_actions=["SliceOp"], sample_cases=(12000 if ctx.quick() else 200000), timeout=900)
+    ctx.chain_phase("chains-code-to-spec", (4000 if ctx.quick() else 60000), 5, ops={"slice"})
+    ctx.pychain_phase("python-chains-code-to-spec", (4000 if ctx.quick() else 60000), 5, ops={"filter"})
     return ctx.finish(assumptions=["slice tuples are a seeded random subset (per layout) of the tier's tuple alphabet"])
 
 
@@ -115,6 +119,8 @@ def run_C09(ctx):
     consts = session_consts(OpSet='{"pad","isnone"}', LeafSet=leafset(2), Classes=OPTION_CLASSES, Axes="{-2,-1,0,1,2}", Targets="{0,1,3}")
     ctx.l2_phase("pad-isnone-python-layer", "Session", consts, ("l2replay", "h_generic"), invariants=["Closed"],
                  require_actions=["PadOp", "IsNoneOp"], sample_cases=(12000 if ctx.quick() else 200000), timeout=900)
+    ctx.chain_phase("chains-code-to-spec", (4000 if ctx.quick() else 60000), 5, ops={"pad", "same"})
+    ctx.pychain_phase("python-chains-code-to-spec", (4000 if ctx.quick() else 60000), 5, ops={"pad", "fillnone", "isnone", "mask", "singletons", "firsts"})
     return ctx.finish()
 
 
@@ -131,6 +137,8 @@ def run_C07(ctx):
                             Classes='{"ListOffset","List","Regular"}')
     ctx.l2_phase("cartesian-python-layer", "Session", consts, ("l2replay", "h_c07_cartesian"), invariants=["Closed"],
                  require_actions=["CartesianOp", "StoreAux"], sample_cases=(15000 if ctx.quick() else 200000), timeout=900)
+    ctx.chain_phase("chains-code-to-spec", (4000 if ctx.quick() else 60000), 5, ops={"comb"})
+    ctx.pychain_phase("python-chains-code-to-spec", (4000 if ctx.quick() else 60000), 5, ops={"comb"})
     return ctx.finish(assumptions=["ak.cartesian is checked for two operands, axis 0 / 1 / -1, list and dict forms; option-type and "
                                    "deeper operands are outside this model (Unspec)", L2_TRUSTED])
 
@@ -156,6 +164,8 @@ def run_C11(ctx):
     ctx.tlc_phase("closure-unary", "Session", consts, invariants=["Closed"], judge_fn=("replay", "judge_closure"),
                   seed_tlc=True, require_actions=["SliceOp", "PadOp", "CombOp", "ReduceOp", "FlattenOp"],
                   max_cases=300000 if q else None)
+    ctx.chain_phase("chains-code-to-spec", (4000 if ctx.quick() else 60000), 6, kinds=("validity",))
+    ctx.pychain_phase("python-chains-code-to-spec", (4000 if ctx.quick() else 60000), 6, kinds=("validity",))
     return ctx.finish(assumptions=["closure is additionally checked on every case of every other property's check"])
 
 
@@ -179,6 +189,8 @@ def run_C03(ctx):
                             Axes="{-2,-1,0,1}", ReduceArgs="RandomSubset(4, AllReduceArgs)")
     ctx.l2_phase("reduce-python-layer", "Session", consts, ("l2replay", "h_generic"), invariants=["Closed"], seed_tlc=True,
                  require_actions=["ReduceOp"], sample_cases=(12000 if ctx.quick() else 200000), timeout=900)
+    ctx.chain_phase("chains-code-to-spec", (4000 if ctx.quick() else 60000), 5, ops={"reduce"})
+    ctx.pychain_phase("python-chains-code-to-spec", (4000 if ctx.quick() else 60000), 5, ops={"reduce"})
     return ctx.finish(assumptions=["leaf values are small integers incl. ties and zeros; float accuracy is out of scope",
                                    "records/unions are not reduced by this model (VReduce returns Unspec)"])
 
@@ -198,6 +210,8 @@ def run_C08(ctx):
     ctx.tlc_phase("concat-pairs", "Session", consts, invariants=["Refines", "Closed"],
                   require_actions=["ConcatOp", "SameValueOp", "StoreAux"],
                   max_cases=None if ctx.quick() else 3000000)
+    ctx.chain_phase("chains-code-to-spec", (4000 if ctx.quick() else 60000), 5, ops={"concatself", "same"})
+    ctx.pychain_phase("python-chains-code-to-spec", (4000 if ctx.quick() else 60000), 5, ops={"concat0", "concat1", "same", "maysame"})
     return ctx.finish(assumptions=["ak.concatenate(axis=0) is replayed as its C++ call sequence mergeable/mergemany/merge_as_union/simplify_uniontype",
                                    "leaf values are small integers representable in every dtype used"])
 
@@ -230,6 +244,8 @@ def run_C06(ctx):
                             Axes="{-2,-1,0,1}", SortArgs="RandomSubset(3, AllSortArgs)")
     ctx.l2_phase("sort-python-layer", "Session", consts, ("l2replay", "h_generic"), invariants=["Closed"], seed_tlc=True,
                  require_actions=["SortOp"], sample_cases=(12000 if ctx.quick() else 200000), timeout=900)
+    ctx.chain_phase("chains-code-to-spec", (4000 if ctx.quick() else 60000), 5, ops={"sort", "argsort"})
+    ctx.pychain_phase("python-chains-code-to-spec", (4000 if ctx.quick() else 60000), 5, ops={"sort", "argsort"})
     return ctx.finish(assumptions=["float leaves hold small integers and NaN only; strings are not modelled yet",
                                    "non-innermost sort with missing lists inside a group is Unspec in the model"])
 
@@ -271,6 +287,7 @@ def run_C14(ctx):
                   translate=("replay", "steps_builder"), judge_fn=("replay", "judge_builder"))
     # code -> spec: long random sessions recorded from the real builder, validated against Builder.tla (TraceBuilder.tla)
     ctx.builder_trace_phase("builder-traces-code-to-spec", 600 if ctx.quick() else 8000, 60)
+    ctx.pychain_phase("python-chains-code-to-spec", (4000 if ctx.quick() else 60000), 5, ops={"rt_iter"})
     return ctx.finish(rule="one case = one maximal command sequence (all sequences up to the bound; sampled beyond it); the "
                            "expected snapshot after EVERY command is compared, and all snapshots are re-read at the end",
                       assumptions=["the builder's state after an error and clear() with open containers are unspecified",
@@ -357,6 +374,7 @@ def run_C15(ctx):
     kw["view"] = None
     ctx.tlc_phase("long-texts-simulate", "JsonIO", dict(TokAlphabet=JSON_TOKENS, MaxToks="14", EmitOn="TRUE"),
                   invariants=["NoPartial"], simulate="num=%d" % (3000 if q else 100000), depth=15, **kw)
+    ctx.pychain_phase("python-chains-code-to-spec", (4000 if ctx.quick() else 60000), 5, ops={"rt_json"})
     return ctx.finish(rule="one case = one JSON text (a token sequence rendered with a seeded choice of whitespace, string/file input and "
                            "read-buffer size 1..64k); all token sequences up to the bound, i.e. every truncation and single-token corruption",
                       assumptions=["the character-level lexer/number formatter is the rapidjson stand-in (rapidjson is absent from the repository)",
@@ -386,6 +404,7 @@ def run_C10(ctx):
                             SliceTuples="RandomSubset(%d, %s)" % (6 if q else 20, FIELD_TUPLES))
     ctx.tlc_phase("fields", "Session", consts, invariants=["Refines", "Closed"], constraint="SmallEnough", seed_tlc=True,
                   require_actions=["SliceOp", "SetFieldOp", "WrapRecord", "ToListOp"])
+    ctx.pychain_phase("python-chains-code-to-spec", (4000 if ctx.quick() else 60000), 5, ops={"zip"})
     return ctx.finish(assumptions=["ak.zip/unzip/with_field broadcasting are Python-layer functions (L2); here the C++ API below them: "
                                    "getitem_field(s), field projections inside slices, setitem_field",
                                    "index-like keys ('0') on named records and projections through unions are Unspec"])
@@ -524,6 +543,8 @@ def run_C02(ctx):
                       judge_fn=("replay", "judge_none"), record=("replay", "record_c02"), require_actions=["ConcatOp"],
                       max_cases=700000 if q else None)
     pairs += _c02_groups(ctx, r.cases_path, "concat-all-encodings")
+    ctx.chain_phase("chains-code-to-spec", (8000 if ctx.quick() else 120000), 6)
+    ctx.pychain_phase("python-chains-code-to-spec", (6000 if ctx.quick() else 100000), 6)
     return ctx.finish(extra={"encoding_pairs_compared": pairs},
                       rule="case = (layout, operation, arguments); cases are grouped by the library's own (type, to_list) of the input and "
                            "every pair of distinct encodings in a group must give equal values and the same success-or-error outcome",
@@ -588,6 +609,8 @@ def run_C12(ctx):
               translate=("replay", "steps_json"), judge_fn=("robust", "judge_nocrash"), variant="asan", worker_env=env)
     ctx.tlc_phase("json-asan", "JsonIO", dict(TokAlphabet=JSON_TOKENS, MaxToks=str(4 if q else 5), EmitOn="TRUE"),
                   invariants=["NoPartial"], sample_cases=(30000 if q else 400000), **kw)
+    ctx.chain_phase("chains-code-to-spec", (4000 if ctx.quick() else 60000), 6, kinds=("crash", "exception"))
+    ctx.pychain_phase("python-chains-code-to-spec", (4000 if ctx.quick() else 60000), 6, kinds=("crash", "exception"))
     return ctx.finish(rule="case = one operation on one layout (or one history / command sequence / text) executed in a worker process built "
                            "with -fsanitize=address,undefined; non-trivial = reaches the library (every case does); verdict on exit "
                            "status, sanitizer report, timeout, exception class, operand digests, and results re-read after drops",
@@ -620,6 +643,7 @@ def run_C04(ctx):
     consts = session_consts(OpSet='{"ufunc"}', LeafSet='{Numpy("int64", <<1, 2, 3, 4>>)}', MaxDepth="1", MaxLen="4", Classes='{"List"}')
     ctx.l2_phase("ufunc-listarray-orderings", "Session", consts, ("l2replay", "h_c04"), invariants=["Closed"],
                  require_actions=["UfuncOp", "WrapList"], sample_cases=(25000 if q else 250000), timeout=1200)
+    ctx.pychain_phase("python-chains-code-to-spec", (4000 if ctx.quick() else 60000), 5, ops={"ufunc", "filter"})
     return ctx.finish(rule="case = (one or two layouts, scalar, ufunc/operator/broadcast_arrays form); executed through numpy ufuncs / Python "
                            "operators / ak.broadcast_arrays of /repo's Python layer; rectilinear pairs are additionally compared with NumPy itself",
                       assumptions=[L2_TRUSTED, "unions and records under ufuncs are outside this model (Unspec / must raise)",
@@ -646,6 +670,7 @@ def run_C16(ctx):
                             Classes='{"ListOffset","List","IndexedOption","Indexed","Regular"}')
     ctx.l2_phase("converters-strings", "Session", consts, ("l2replay", "h_c16"), invariants=["Closed", "BuffersInv"],
                  require_actions=["BuffersOp"], sample_cases=(2000 if q else 50000), timeout=1500)
+    ctx.pychain_phase("python-chains-code-to-spec", (4000 if ctx.quick() else 60000), 5, ops={"rt_buffers", "rt_pickle", "rt_arrow"})
     return ctx.finish(rule="case = one layout; on it: to_buffers/from_buffers (dict, bytes-only and custom-key containers), pickle, a "
                            "2-way partitioning through buffers and pickle, to_numpy/from_numpy when rectilinear, to_arrow/from_arrow with "
                            "seeded list_to32/string_to32 and pyarrow's own to_pylist",
